@@ -4,6 +4,7 @@ mod util;
 mod hcobs_fam;
 mod hmem;
 mod asl;
+mod genc;
 mod iovw;
 mod nfs;
 mod readn;
@@ -43,6 +44,7 @@ fn main() {
             "win" => win::run(line),
             "iovw" | "geo" => iovw::run(line),
             "asl" => asl::run(line),
+            "genc" => genc::run(line),
             "nfs" => nfs::run(line),
             "chunk" => stream::run_chunk(line),
             "gchk" => stream::run_gchunk(line),
